@@ -6,8 +6,11 @@ EXTENDS BslMh
 CONSTANT Dim
 MCPoints == {<<1, 3>>, <<1, 2>>, <<1, 1>>, <<2, 1>>, <<3, 1>>}
 MCIntPoints == {<<-1, 1>>, <<0, 1>>, <<2, 1>>}
-MCPosts == {<<1, 4>>, <<1, 1>>, <<3, 2>>, <<5, 1>>}
+MCPosts1 == {<<1, 4>>, <<1, 1>>, <<3, 2>>, <<5, 1>>}
 Kinds == {[ty |-> 0, a |-> 0, b |-> 1], [ty |-> 0, a |-> -1, b |-> 1], [ty |-> 0, a |-> 1, b |-> 5],
           [ty |-> 1, a |-> 0, b |-> 4], [ty |-> 2, a |-> 1, b |-> 0], [ty |-> 3, a |-> 0, b |-> 0]}
-MCParams == IF Dim = 1 THEN {<<k>> : k \in Kinds} ELSE {<<k1, k2>> : k1 \in Kinds, k2 \in Kinds}
+Kinds2 == {[ty |-> 0, a |-> -1, b |-> 1], [ty |-> 1, a |-> 0, b |-> 4], [ty |-> 2, a |-> 1, b |-> 0], [ty |-> 3, a |-> 0, b |-> 0]}
+MCParams == IF Dim = 1 THEN {<<k>> : k \in Kinds} ELSE {<<k1, k2>> : k1 \in Kinds2, k2 \in Kinds2}
+MCPosts2 == {<<1, 4>>, <<3, 2>>}
+MCPosts == IF Dim = 1 THEN MCPosts1 ELSE MCPosts2
 =============================================================================
